@@ -76,7 +76,7 @@ def stage_a(ctx, procs):
 
 
 def stage_b(ctx, procs):
-    names, items = c11.enum_run(ctx, 'checks', ctx.pick(23, 1), procs, tag='b')
+    names, items = c11.enum_run(ctx, 'checks', ctx.pick(23, 2), procs, tag='b')
     idx = [i for i, n in enumerate(names) if n]           # the empty name: see stage C
     bad, nrej, nyes = [], 0, 0
     for it in items:
@@ -175,9 +175,9 @@ def make_pairs(ctx, ck, rules, text, L, nsample, Lall, tag):
 
 
 def stage_c(ctx, procs):
-    n = ctx.pick(45, 700)
+    n = ctx.pick(45, 500)
     L = ctx.pick(3, 4)
-    Lall = ctx.pick(2, 3)
+    Lall = 2
     nsample = ctx.pick(800, 5000)
     gen = K.Gen(ctx.rng, signing=0.85, p_forward=0.2)
     recs, rejected, sid, nyes = [], 0, 0, 0
@@ -194,7 +194,9 @@ def stage_c(ctx, procs):
         if sid % 2:
             ck = K.reload(ck)              # half of the schemas are queried after save/load
         ctx.traces += 1
-        alpha, names, pairs = make_pairs(ctx, ck, rules, text, L, nsample, Lall, sid)
+        # all pairs of short names; in the thorough tier every 10th schema gets all pairs one length further
+        alpha, names, pairs = make_pairs(ctx, ck, rules, text, L, nsample,
+                                         Lall + (1 if not ctx.quick and len(recs) % 10 == 0 else 0), sid)
         nyes += sum(1 for p in pairs if p[2])
         recs.append({'sid': sid, 'kind': 'c', 'rules': rules, 'model': K.dump_model(ck.model), 'names': names,
                      'pairs': pairs, 'text': text, 'alpha': alpha})
